@@ -672,11 +672,10 @@ fn gen_decimal(tier: &str, r: &mut Rng, emit: &mut dyn FnMut(Case)) {
                 if rp_doc < 1 || rp_doc > 127 { continue; }
                 let (lm, rm) = (pow10(el), pow10(er));
                 let mult_ok = in_range(true, bits, &lm) && in_range(true, bits, &rm);
-                // KNOWN-FINDING candidate: decimal `rem` computes its rescaling multipliers with pow_wrapping;
-                // when 10^(max(s1,s2)-s_i) does not fit the native type the kernel silently uses a wrapped multiplier
-                // (wrong remainder, no error) instead of reporting overflow as add/sub do.  Excluded here.
-                if op == 4 && !mult_ok { continue; }
-                if !mult_ok && !r.chance(1, 10) { continue; }
+                // rem with a rescaling multiplier 10^(max(s1,s2)-s_i) that does not fit the native type must report
+                // Overflow like add/sub (finding F17: the source used pow_wrapping there and returned a wrong remainder;
+                // fixed in /repo 9e1df4d).  This class is generated on purpose, at a higher rate for rem.
+                if !mult_ok && !r.chance(if op == 4 { 5 } else { 1 }, 10) { continue; }
                 if op == 2 && rs > maxp && !r.chance(1, 10) { continue; }
                 made += 1;
                 let layout = r.below(8); // 0..4 array/array, 5 scalar left, 6 scalar right, 7 both scalar
